@@ -27,6 +27,11 @@ def run(ctx):
     run_case(ctx, dict(nls=[2], terms=[[0, 0], [0]], nts=[[0]], start=0,
                        rules=[dict(lhs=0, nodes=[0, 0], ext=[0], edges=[('t', 0, [0, 1]), ('t', 0, [1, 0]), ('t', 1, [1])])],
                        weights={0: [1.0, 2.0, 3.0, 0.5], 1: [1.0, 2.0]}), False, True)
+    # corpus for the command line option -n: factors already normalised along the dimension given to -n (rows / columns sum to 1)
+    for dim, tw in ((1, [0.5, 0.5, 0.25, 0.75]), (0, [0.5, 0.25, 0.5, 0.75])):
+        run_case(ctx, dict(nls=[2], terms=[[0], [0, 0], [0]], nts=[[]], start=0,
+                           rules=[dict(lhs=0, nodes=[0, 0], ext=[], edges=[('t', 0, [0]), ('t', 1, [0, 1]), ('t', 2, [1])])],
+                           weights={0: [1.0, 2.0], 1: tw, 2: [3.0, 1.0]}, _cli_n=(1, dim)), False, True)
     while k < n and attempts < 20 * n:
         attempts += 1
         recursive = ctx.rng.random() < 0.4
@@ -174,7 +179,9 @@ def run_case(ctx, shape, recursive, linear):
     methods = ['fixed-point', 'newton'] + (['linear'] if linear else [])
     if nontriv and getattr(ctx, '_cli_left', None) is None:
         ctx._cli_left = 10 if ctx.quick else 60
-    if nontriv and ctx._cli_left > 0 and ctx.rng.random() < 0.5:
+    if shape.get('_cli_n') is not None:
+        cli_case(ctx, shape, case, model, zval, cot, recursive)
+    elif nontriv and ctx._cli_left > 0 and ctx.rng.random() < 0.5:
         ctx._cli_left -= 1
         cli_case(ctx, shape, case, model, zval, cot, recursive)
     from .jac import jpp_tags
@@ -264,7 +271,14 @@ def cli_case(ctx, shape, case, model, zval, cot, recursive):
         with open(f, 'w') as fh:
             json.dump(j, fh)
         repo = os.environ.get('FGGS_REPO', '/repo')
-        cmd = [sys.executable, repo + '/bin/sum_product.py', f, '-d', '-m', 'fixed-point', '-l', '1e-12', '-k', '3000', '-G'] + extra + \
+        # -n <factor> <dim> on a factor that is ALREADY normalised along <dim> (corpus shapes): the option must not change the result
+        norm = []
+        if shape.get('_cli_n') is not None:
+            ti, dim = shape['_cli_n']
+            if info['TL'][ti].name not in [extra[2]] if extra else True:
+                norm = ['-n', info['TL'][ti].name, str(dim)]
+                ctx.count('cli.-n')
+        cmd = [sys.executable, repo + '/bin/sum_product.py', f, '-d', '-m', 'fixed-point', '-l', '1e-12', '-k', '3000', '-G'] + extra + norm + \
               ([] if uniform else ['-o', json.dumps(cot_t)])
         r = subprocess.run(cmd, capture_output=True, text=True, env=dict(os.environ, PYTHONPATH=repo), timeout=600)
     ctx.evaluations += 1
